@@ -484,10 +484,15 @@ class ExcelCompiler:
             # reset the node + its dependencies
             if not self.cycles:
                 self._reset(cell_or_range)
-            elif getattr(cell_or_range, 'formula', None) and not set_as_range:
-                # iterative calcs evaluate all formulas on every pass, so
-                # a value can only replace a formula, not override it
+            if getattr(cell_or_range, 'formula', None) and not set_as_range:
+                # a value replaces a formula: iterative calcs evaluate all
+                # formulas on every pass, and otherwise the formula would be
+                # back with the next change to one of its precedents
                 cell_or_range.formula = None
+                if cell_or_range in self.dep_graph:
+                    # it does not depend on its former precedents any more
+                    self.dep_graph.remove_edges_from(
+                        tuple(self.dep_graph.in_edges(cell_or_range)))
 
             # set the value
             cell_or_range.value = value
